@@ -42,14 +42,34 @@ unsafe impl GlobalAlloc for ArenaAlloc {
         System.alloc(layout)
     }
     unsafe fn dealloc(&self, ptr: *mut u8, layout: Layout) {
-        let base = ARENA_BASE.try_with(|b| b.get()).unwrap_or(0);
+        // a block may be released by another thread than the one whose arena it came from (a panic
+        // message handed to the reporting thread): look at every arena
         let p = ptr as usize;
-        if base != 0 && p >= base && p < base + ARENA_SIZE {
-            return;
+        for slot in ARENAS.iter() {
+            let base = slot.load(Ordering::Relaxed);
+            if base == 0 {
+                break;
+            }
+            if p >= base && p < base + ARENA_SIZE {
+                return;
+            }
         }
         System.dealloc(ptr, layout)
     }
+    unsafe fn realloc(&self, ptr: *mut u8, layout: Layout, new_size: usize) -> *mut u8 {
+        // never hand an arena block to the system realloc
+        let new_layout = Layout::from_size_align_unchecked(new_size, layout.align());
+        let new_ptr = self.alloc(new_layout);
+        if !new_ptr.is_null() {
+            std::ptr::copy_nonoverlapping(ptr, new_ptr, layout.size().min(new_size));
+            self.dealloc(ptr, layout);
+        }
+        new_ptr
+    }
 }
+
+const MAX_ARENAS: usize = 256;
+static ARENAS: [AtomicUsize; MAX_ARENAS] = [const { AtomicUsize::new(0) }; MAX_ARENAS];
 
 #[global_allocator]
 static GLOBAL: ArenaAlloc = ArenaAlloc;
@@ -59,6 +79,14 @@ fn arena_begin() {
         let p = unsafe { System.alloc(Layout::from_size_align(ARENA_SIZE, 4096).unwrap()) };
         assert!(!p.is_null());
         ARENA_BASE.with(|b| b.set(p as usize));
+        let mut registered = false;
+        for slot in ARENAS.iter() {
+            if slot.compare_exchange(0, p as usize, Ordering::SeqCst, Ordering::SeqCst).is_ok() {
+                registered = true;
+                break;
+            }
+        }
+        assert!(registered, "more than {MAX_ARENAS} tracing threads");
     }
     ARENA_OFF.with(|o| o.set(0));
     ARENA_ON.with(|a| a.set(true));
@@ -180,11 +208,21 @@ fn trace(run: fn(&Inputs), inp: &Inputs, log: bool) -> (Summary, Option<Vec<(u8,
     T_H2.with(|h| h.set(0x1234_5678_9abc_def1));
     T_N.with(|n| n.set(0));
     T_LAST_GUARD.with(|g| g.set(0));
+    // tracing and the arena are switched off by a drop guard, so that a panic inside the operation
+    // (reported by the engine as an unguarded panic) leaves this thread in a usable state
+    struct Off;
+    impl Drop for Off {
+        fn drop(&mut self) {
+            T_ON.with(|t| t.set(false));
+            arena_end();
+        }
+    }
     arena_begin();
     T_ON.with(|t| t.set(true));
-    run(std::hint::black_box(inp));
-    T_ON.with(|t| t.set(false));
-    arena_end();
+    {
+        let _off = Off;
+        run(std::hint::black_box(inp));
+    }
     let s = Summary { h1: T_H1.with(|h| h.get()), h2: T_H2.with(|h| h.get()), n: T_N.with(|n| n.get()) };
     let l = if log { T_LOG.with(|l| l.borrow_mut().take()) } else { None };
     (s, l)
